@@ -1,1 +1,26 @@
-fn main() {}
+//! Monitors over collaborative objects (real storage, real evaluators): C04–C09.
+mod c04;
+mod c05;
+mod c06;
+mod c07;
+mod c08;
+mod c09;
+mod gen;
+mod world;
+
+fn main() {
+    vcommon::install_panic_hook();
+    let args = vcommon::Args::parse();
+    match args.prop.as_str() {
+        "C04" => c04::run(&args),
+        "C05" => c05::run(&args),
+        "C06" => c06::run(&args),
+        "C07" => c07::run(&args),
+        "C08" => c08::run(&args),
+        "C09" => c09::run(&args),
+        p => {
+            eprintln!("h-cob: unknown property {p}");
+            std::process::exit(2);
+        }
+    }
+}
